@@ -63,6 +63,13 @@ func c23ParseReply(s string) (serf.NodeResponse, bool) {
 		}
 		nr.Payload = b
 		return nr, true
+	case len(p) == 6 && len(p[1]) > 1 && p[1][0] == 'R' && (p[2] == "D0" || p[2] == "D1"):
+		b := unhex(p[1][1:])
+		if b == nil {
+			return nr, false
+		}
+		nr.Payload = b
+		return nr, true
 	case len(p) == 5 && (p[1] == "D0" || p[1] == "D1"):
 		msg, prim := unhex(p[2]), unhex(p[3])
 		if msg == nil || prim == nil {
@@ -82,6 +89,59 @@ func c23ParseReply(s string) (serf.NodeResponse, bool) {
 		return nr, true
 	}
 	return nr, false
+}
+
+// c23Partial hand-encodes a key reply as a msgpack map carrying only the chosen fields (in the given
+// order) — what a release without some field, or an encoder that omits empty fields, sends.  It returns the
+// payload (with the type byte) and the op-line description of what it decodes to: absent = zero value.
+func c23Partial(fields []string, result bool, msg string, keys []string, prim string) (payload []byte, desc string) {
+	str := func(b []byte, s string) []byte {
+		if len(s) < 32 {
+			b = append(b, 0xa0|byte(len(s)))
+		} else {
+			b = append(b, 0xd9, byte(len(s)))
+		}
+		return append(b, s...)
+	}
+	b := []byte{8, 0x80 | byte(len(fields))}
+	dRes, dMsg, dPrim, dKeys := false, "", "", []string(nil)
+	for _, f := range fields {
+		b = str(b, f)
+		switch f {
+		case "Result":
+			if result {
+				b = append(b, 0xc3)
+			} else {
+				b = append(b, 0xc2)
+			}
+			dRes = result
+		case "Message":
+			b = str(b, msg)
+			dMsg = msg
+		case "PrimaryKey":
+			b = str(b, prim)
+			dPrim = prim
+		case "Keys":
+			b = append(b, 0x90|byte(len(keys)))
+			for _, k := range keys {
+				b = str(b, k)
+			}
+			dKeys = keys
+		}
+	}
+	d := "D0"
+	if dRes {
+		d = "D1"
+	}
+	ks := "_"
+	if len(dKeys) > 0 {
+		var hs []string
+		for _, k := range dKeys {
+			hs = append(hs, hexs(k))
+		}
+		ks = strings.Join(hs, ".")
+	}
+	return b, fmt.Sprintf("R%s/%s/%s/%s/%s", hexb(b), d, hexs(dMsg), hexs(dPrim), ks)
 }
 
 type c23Node struct {
@@ -301,7 +361,24 @@ func c23Gen(rng *rand.Rand, tier string) []Case {
 			if rng.Intn(2) == 0 {
 				from = fmt.Sprintf("n%d", j)
 			}
-			switch rng.Intn(7) {
+			switch rng.Intn(9) {
+			case 7, 8: // well-formed reply that omits fields (older release / minimal encoder), any field order
+				all := []string{"Result", "Message", "Keys", "PrimaryKey"}
+				rng.Shuffle(len(all), func(a, b int) { all[a], all[b] = all[b], all[a] })
+				fields := all[:rng.Intn(4)]
+				if rng.Intn(3) == 0 {
+					fields = []string{"Result"} // minimal {Result: …}
+				} else if rng.Intn(3) == 0 {
+					fields = []string{"Result", "Message", "Keys"} // a release without PrimaryKey
+				}
+				var keys []string
+				for x, nk := 0, rng.Intn(3); x < nk; x++ {
+					keys = append(keys, keyPool[rng.Intn(len(keyPool))])
+				}
+				msg := []string{"", "boom", "note"}[rng.Intn(3)]
+				_, desc := c23Partial(fields, rng.Intn(4) != 0, msg, keys, keyPool[rng.Intn(len(keyPool))])
+				rs = append(rs, hexs(from)+"/"+desc)
+				kinds["partial"] = true
 			case 0: // wrong type byte / empty payload
 				p := [][]byte{{}, {5, 0x80}, {6}, {0}, append([]byte{7}, serf.VerifEncodeKeyResponse(true, "", nil, "")[1:]...)}[rng.Intn(5)]
 				rs = append(rs, hexs(from)+"/T"+hexb(p))
@@ -342,7 +419,7 @@ func c23Gen(rng *rand.Rand, tier string) []Case {
 			op += " " + strings.Join(rs, " ")
 		}
 		out = append(out, Case{ID: fmt.Sprintf("a%d", i), Ops: []string{op},
-			Nontrivial: kinds["ok"] && kinds["failed"] && (kinds["T"] || kinds["U"]), Tags: []string{"agg"}})
+			Nontrivial: kinds["ok"] && (kinds["failed"] || kinds["partial"]) && (kinds["T"] || kinds["U"]), Tags: []string{"agg"}})
 	}
 	for i := 0; i < nKL; i++ {
 		c := c23KL{limit: rng.Intn(4097), actual: rng.Intn(201), keylen: []int{4, 5, 8, 24, 44, 44, 44, 64}[rng.Intn(8)],
@@ -382,10 +459,10 @@ func c23Gen(rng *rand.Rand, tier string) []Case {
 func init() {
 	register(&Prop{
 		ID: "C23",
-		Rule: "agg: the real streamKeyResp on 0–8 replies for 0–6 members: ok / Result=false / wrong type byte or empty / broken msgpack, sender names with repeats, keys from a pool of 5 (repeats within a reply allowed), with and without messages; " +
+		Rule: "agg: the real streamKeyResp on 0–8 replies for 0–6 members: ok / Result=false / wrong type byte or empty / broken msgpack / well-formed msgpack maps that omit fields (minimal {Result}, no PrimaryKey, any subset in any field order; absent fields decode to zero values), sender names with repeats, keys from a pool of 5 (repeats within a reply allowed), with and without messages; " +
 			"klist: the real truncation loop for limits 0–4096 (and just around the size of the full reply), 0–200 keys of length 4–64, three node-name lengths, small and large Lamport time/id; sizes of the full reply and of every prefix M…1 with its notice come from the real encoders; " +
 			"listkeys: ListKeys() on three real nodes (keyring: success; no keyring: a failed reply; response limit too small for any reply: nobody answers before the timeout); " +
-			"non-trivial = agg mixes ok, failed and undecodable replies / klist truncates and succeeds / listkeys; distinct = distinct op",
+			"non-trivial = agg mixes ok, failed-or-partial and undecodable replies / klist truncates and succeeds / listkeys; distinct = distinct op",
 		Gen:  c23Gen,
 		Exec: c23Exec,
 	})
